@@ -134,4 +134,45 @@ func init() {
 			ruleCFL4(c)
 		},
 	})
+
+	register(&PropSpec{
+		ID:    "C02",
+		Level: "other",
+		Explanation: "The automaton algebra (subset construction, refinement, range splitting) computes on run-time values and is NOT decided. Decided are the construction shapes and the selection mechanisms, each a necessary condition: Thompson shape of every NFACons (LEX-1), earliest declared rule wins in pickAction (LEX-2), the runtime acts only when the transition search is exhausted (LEX-3), universe constants (LEX-4), the Build/NFAToDFA pipeline skeleton (LEX-5), accepting states of different rules are kept apart by optimize (LEX-6), plus the table format agreement FMT-1..3.",
+		Run: func(c *Ctx) {
+			ruleLEX1(c)
+			ruleLEX2(c)
+			ruleLEX3(c)
+			ruleLEX4(c)
+			ruleLEX5(c)
+			ruleLEX6(c)
+			ruleFMT1(c)
+			ruleFMT2(c)
+			ruleFMT3(c)
+		},
+	})
+
+	register(&PropSpec{
+		ID:    "C07",
+		Level: "other",
+		Explanation: "Decides the mechanisms behind mode switching and action lists, each a necessary condition: the reader's push/pop arms obey a stack discipline on the instance's mode stack and _Stack has stack semantics (MODE-1); no action list can hold an interpretation-ending action (accept/discard/accumulate) before a falling-through one (push/pop), derived from which reader arms return (MODE-2); Mode.Index = position in the sorted name list with no gaps, the default mode sorts first, the writer emits the Index of the named mode and _lexerModes is positional in Index order (MODE-3); implicit last actions (MODE-4); plus the action code agreement FMT-3.",
+		Run: func(c *Ctx) {
+			ruleMODE1(c)
+			ruleMODE2(c)
+			ruleMODE3(c)
+			ruleMODE4(c)
+			ruleFMT3(c)
+		},
+	})
+	register(&PropSpec{
+		ID:    "C11",
+		Level: "other",
+		Explanation: "Termination and conservation of input are properties of template + external driver on every input: NOT decidable here. Decided is the consumption accounting the runtime relies on: EOF is reported only for the end-of-input rune, after the pending actions, and only when an explicit per-instance flag says nothing was consumed since the last token boundary; every consume sets that flag, every boundary arm and Reset clear it and return to state 0 (EOFL-1, EOFL-3); actions are unreachable while nothing was consumed, so an empty match is never a token (EOFL-2); plus FMT-3 (result codes agree with the driver). " +
+			"Known limitation (not a check): text accumulated by action-less fragments is dropped without error when the input ends; the driver is external.",
+		Run: func(c *Ctx) {
+			ruleEOFL(c)
+			ruleFMT3(c)
+			ruleLEX3(c)
+		},
+	})
 }
